@@ -18,13 +18,16 @@ def _odl():
     return odl, np
 
 
-KINDS = ('native', 'native-broadcast', 'decorated', 'decorated-otypes', 'inplace', 'constant', 'native-complex', 'decorated-complex')
+KINDS = ('identity', 'native', 'native-broadcast', 'decorated', 'decorated-otypes', 'inplace', 'constant', 'native-complex', 'decorated-complex')
 DTYPES = ('float32', 'float64', 'complex64', 'complex128')
 
 
 def make_callable(kind, ndim):
     """returns (callable, scalar reference) - a FRESH callable object each time"""
     odl, np = _odl()
+    if kind == 'identity':
+        # returns (a view of) its own argument: the new element must still own its data
+        return (lambda x: x[0] if ndim > 1 else x), (lambda p: p[0])
     if kind == 'native':
         return (lambda x: sum((i + 1.25) * x[i] ** 2 for i in range(ndim)) + 0.1), (lambda p: sum((i + 1.25) * p[i] ** 2 for i in range(ndim)) + 0.1)
     if kind == 'native-broadcast':
@@ -71,9 +74,14 @@ def check(cfg):
     for dtype, how in cfg['uses']:
         sp = odl.uniform_discr([0.0, -1.0][:ndim], [1.0, 2.0][:ndim], [4, 3][:ndim], dtype=dtype)
         mesh = sp.meshgrid
+        coords0 = [v.copy() for v in sp.grid.coord_vectors]
         try:
             if how == 'element':
-                got = sp.element(f).asarray()
+                el = sp.element(f)
+                got = el.asarray().copy()
+                el *= 3.0           # the caller owns the new element: changing it in place must not change the space
+                if any(not np.array_equal(a, b) for a, b in zip(sp.grid.coord_vectors, coords0)):
+                    return 'use %r: scaling the new element in place changed the grid of the space: %r, was %r' % ((dtype, how), sp.grid.coord_vectors, coords0), evals
             else:
                 got = np.empty(sp.shape, dtype=dtype)
                 sf = sampling_function(f, sp.domain, out_dtype=dtype)
